@@ -6,6 +6,7 @@
 //! the master's events and the public accessors of `Peripheral`.
 
 use crate::apps::{AppCall, UserAct};
+use crate::phy::RxVerdict;
 use crate::scenario::{AppCfg, PeriphCfg};
 use crate::wire::{self, Fc, Frame};
 use crate::world::{Monitor, PollInfo, Stats, World};
@@ -484,6 +485,26 @@ impl Monitor for ImageMonitor {
         }
         let master = w.stations[self.dp.st].cfg.addr;
         let Some(d) = w.stations[self.dp.st].apps.get(self.dp.app).and_then(|p| p.dp()) else { return };
+        // what is handed to the DP master as a reply must be a frame the reference decoder finds
+        // on the wire (a telegram with, say, a damaged repeated start delimiter is no telegram)
+        for c in p.calls {
+            if let AppCall::Reply { app, addr, frame } = c {
+                if *app == self.dp.app && !p.rx.iter().any(|r| matches!(&r.verdict, RxVerdict::Consumed { frame: f, .. } if f == frame)) {
+                    w.violate(
+                        self.prop,
+                        "image.wire",
+                        "reply-not-a-valid-frame-on-the-wire",
+                        Some(master),
+                        format!(
+                            "the reply {} from #{addr} was delivered to the DP master, but the bytes the station consumed in this poll are not that telegram for the reference decoder ({:?})",
+                            frame.short(),
+                            p.rx.iter().map(|r| format!("{:?}", r.verdict)).collect::<Vec<_>>()
+                        ),
+                    );
+                    return;
+                }
+            }
+        }
         // which peripheral must / may / must not have been updated in this poll
         let mut must: Option<usize> = None;
         let may: Option<usize> = None;
